@@ -509,4 +509,36 @@ theorem clientLogin_eq (pw : Bytes) (c : Conn) :
   · simp [clientLogin, clientLoginSend, Op.bind_apply, getReqID, writePacket, hw]
   · simp [clientLogin, clientLoginSend, Op.bind_apply, getReqID, writePacket, hw]
 
+/-! ### history independence of the frame reader -/
+
+/-- `readMany` always delivers a list (a refused or missing frame ends it) -/
+theorem readMany_ok (n : Nat) (s : Stream) : ∃ more s', readMany n s = (Res.ok more, s') := by
+  induction n generalizing s with
+  | zero => exact ⟨[], s, rfl⟩
+  | succ n ih =>
+    rcases hr : readPacketRd s with ⟨r, s1⟩
+    cases r with
+    | ok p =>
+      obtain ⟨more, s2, h2⟩ := ih s1
+      exact ⟨p :: more, s2, by simp only [readMany, hr, h2]⟩
+    | err => exact ⟨[], s1, by simp only [readMany, hr]⟩
+    | panic => exact ⟨[], s1, by simp only [readMany, hr]⟩
+
+theorem history_independent (ps : List Pkt) (hps : ∀ p ∈ ps, p.payload.length + 10 ≤ 4096) (tail : Bytes) (n : Nat)
+    (s : Stream) (hs : s.flat = framesOf ps ++ tail) :
+    ∃ more s', readMany (ps.length + n) s = (Res.ok (ps ++ more), s') := by
+  induction ps generalizing s with
+  | nil =>
+    obtain ⟨more, s', h⟩ := readMany_ok n s
+    exact ⟨more, s', by simpa using h⟩
+  | cons p ps ih =>
+    have hs' : s.flat = packetBytes p.id p.typ p.payload ++ (framesOf ps ++ tail) := by
+      rw [hs]; simp [framesOf]
+    obtain ⟨s1, h1, hf1, _⟩ := readPacketRd_frame p.id p.typ p.payload _ (hps p (by simp)) s hs'
+    obtain ⟨more, s2, h2⟩ := ih (fun q hq => hps q (by simp [hq])) s1 hf1
+    refine ⟨more, s2, ?_⟩
+    have e : (p :: ps).length + n = (ps.length + n) + 1 := by simp; omega
+    rw [e]
+    simp only [readMany, h1, h2, List.cons_append]
+
 end GoMC.Lemmas.RCON
